@@ -114,3 +114,112 @@ Section Converge.
     unfold scoped_evaluate_all. apply convP_get. rewrite Hsc4. cbn [sort_alist sort_by fold_right map iterM]. apply convP_ret. split; assumption.
   Qed.
 End Converge.
+
+(* ================= one block: canonical numbering <-> its place in a state ================= *)
+Record cX := { x_r : list value; x_e : list (N * N); x_a : list (list aop) }.
+
+Lemma shg_mono n0 g n : n0 <= g -> forall i j, dom n0 n0 n i -> dom n0 n0 n j -> i < j -> shg n0 g i < shg n0 g j.
+Proof. unfold dom, shg. intros Hg i j Hi Hj Hlt. destruct (N.ltb_spec i n0), (N.ltb_spec j n0); lia. Qed.
+Lemma shg_back_mono n0 g n : n0 <= g -> forall i j, dom n0 g n i -> dom n0 g n j -> i < j -> shg g n0 i < shg g n0 j.
+Proof. unfold dom, shg. intros Hg i j Hi Hj Hlt. destruct (N.ltb_spec i g), (N.ltb_spec j g); lia. Qed.
+Lemma shg_back n0 g n i : n0 <= g -> dom n0 n0 n i -> shg g n0 (shg n0 g i) = i.
+Proof. unfold dom, shg. intros Hg Hi. destruct (N.ltb_spec i n0) as [H|H]; [destruct (N.ltb_spec i g); lia|]. destruct (N.ltb_spec (i - n0 + g) g); lia. Qed.
+Lemma shg_forth n0 g n i : n0 <= g -> dom n0 g n i -> shg n0 g (shg g n0 i) = i.
+Proof. unfold dom, shg. intros Hg Hi. destruct (N.ltb_spec i g) as [H|H]; [destruct (N.ltb_spec i n0); lia|]. destruct (N.ltb_spec (i - g + n0) n0); lia. Qed.
+Lemma shg_dom_back n0 g n i : n0 <= g -> dom n0 g n i -> dom n0 n0 n (shg g n0 i).
+Proof. unfold dom, shg. intros Hg H. destruct (N.ltb_spec i g); lia. Qed.
+
+Definition seg (rho : list value) (k : nat) (l : list value) : Prop := forall j w, nth_error l j = Some w -> nth_error rho (k + j) = Some w.
+Lemma seg_app rho k a b : seg rho k (a ++ b) -> seg rho k a /\ seg rho (k + length a) b.
+Proof.
+  intros H. split.
+  - intros j w E. apply H. rewrite nth_error_app1; [exact E|]. apply nth_error_Some. congruence.
+  - intros j w E. replace (k + length a + j)%nat with (k + (length a + j))%nat by lia. apply H. rewrite nth_error_app2 by lia. rewrite <- E. f_equal. lia.
+Qed.
+
+Section Blocks3.
+  Variable call : ident -> graph -> list value -> res (value * graph).
+  Variable okfn : ident -> Prop.
+  Hypothesis Hcall : forall f, okfn f -> call_ok call f.
+  Variable n0 : N.
+
+  Definition cden (d : delta) (X : cX) : Prop :=
+    store_wf call (x_r X) (d_thunks d) /\ Forall2 (den_edge call (x_r X)) (d_edges d) (x_e X) /\
+    Forall2 (den_astmt call (x_r X)) (d_attrs d) (x_a X) /\ Forall (print_ok call (x_r X)) (d_prints d).
+  Definition oseg_of (d : delta) (X : cX) : oseg := {| o_nodes := d_nodes d; o_e := x_e X; o_a := concat (x_a X) |}.
+  Notation dok := (delta_ok ea0 okfn n0 n0 0).
+  Notation nn d := (N.of_nat (length (d_nodes d))).
+
+  (* the pieces of delta_ok in the shape used by the transport lemmas *)
+  Lemma dok_thunks d : dok d -> forall j th, nth_error (d_thunks d) j = Some th -> thall okfn (dom n0 n0 (nn d)) (Lk 0 j) th.
+  Proof. intros (_ & H & _) j th E. eapply thall_impl; [| |apply (H j th E)]; [intros i Hi; exact Hi|unfold Lk; intros l; cbn; lia]. Qed.
+  Lemma dok_stmts d : dok d ->
+    Forall (lsall ea0 okfn (dom n0 n0 (nn d)) (Lk 0 (length (d_thunks d)))) (d_edges d) /\
+    Forall (lsall ea0 okfn (dom n0 n0 (nn d)) (Lk 0 (length (d_thunks d)))) (d_attrs d) /\
+    Forall (lsall ea0 okfn (dom n0 n0 (nn d)) (Lk 0 (length (d_thunks d)))) (d_prints d).
+  Proof.
+    intros (_ & _ & He & Ha & Hp).
+    assert (G : forall (K : lstmt -> Prop) l, Forall (fun st => K st /\ lsall ea0 okfn (fun i => i < n0 \/ n0 <= i /\ i < n0 + nn d) (fun l => 0 <= l /\ l < 0 + N.of_nat (length (d_thunks d))) st) l ->
+                Forall (lsall ea0 okfn (dom n0 n0 (nn d)) (Lk 0 (length (d_thunks d)))) l).
+    { intros K l H. eapply Forall_impl; [|exact H]. intros st [_ Hst]. eapply lsall_impl; [| |exact Hst]; [intros i Hi; exact Hi|unfold Lk; intros x; cbn; lia]. }
+    split; [eapply G; exact He|]. split; [eapply G; exact Ha|eapply G; exact Hp].
+  Qed.
+
+  Section Place.
+    Variables (d : delta) (X : cX) (g : N) (k : nat) (rhoB : list value).
+    Hypothesis Hd : dok d.
+    Hypothesis HX : cden d X.
+    Hypothesis Hg : n0 <= g.
+    Hypothesis Hrho : seg rhoB k (map (vren (shg n0 g)) (x_r X)).
+    Let Dp := dren (shg n0 g) (shl 0 (N.of_nat k)) d.
+
+    Lemma place_seg : forall j w, (j < length (d_thunks d))%nat -> nth_error (x_r X) (0 + j) = Some w ->
+      vall (dom n0 n0 (nn d)) w /\ nth_error rhoB (k + j) = Some (vren (shg n0 g) w).
+    Proof.
+      intros j w Hj Hw. destruct HX as ([Hlen Hst] & _). split.
+      - refine (seg_valid call okfn Hcall (dom n0 n0 (nn d)) (x_r X) 0 (d_thunks d) _ j w Hj Hw).
+        intros j0 th E. cbn [plus]. split; [apply Hst; [apply nth_error_Some; congruence|exact E]|apply dok_thunks; assumption].
+      - apply Hrho. cbn [plus] in Hw. rewrite nth_error_map, Hw. reflexivity.
+    Qed.
+    Lemma rlk_shl l : rlk 0 k l = shl 0 (N.of_nat k) l. Proof. unfold rlk, shl. cbn. reflexivity. Qed.
+    Lemma thren_rlk th : thren (shg n0 g) (rlk 0 k) th = thren (shg n0 g) (shl 0 (N.of_nat k)) th.
+    Proof. reflexivity. Qed.
+    Lemma lsren_rlk st : lsren (shg n0 g) (rlk 0 k) st = lsren (shg n0 g) (shl 0 (N.of_nat k)) st.
+    Proof. reflexivity. Qed.
+
+    Lemma place_thunks : forall j th', nth_error (d_thunks Dp) j = Some th' -> thunk_ok call rhoB (k + j) th'.
+    Proof.
+      intros j th' E. unfold Dp, dren in E. cbn [d_thunks] in E. rewrite nth_error_map in E. destruct (nth_error (d_thunks d) j) as [th|] eqn:Eth; [|discriminate].
+      cbn in E. inversion E; subst th'. rewrite <- thren_rlk. destruct HX as ([Hlen Hst] & _).
+      assert (Hj : (j < length (d_thunks d))%nat) by (apply nth_error_Some; congruence).
+      apply (tr_thunk call okfn Hcall (dom n0 n0 (nn d)) (shg n0 g) (x_r X) rhoB 0 k (length (d_thunks d)) (shg_mono n0 g (nn d) Hg) place_seg j th Hj).
+      - apply Hst; assumption.
+      - apply dok_thunks; assumption.
+    Qed.
+    Lemma place_edges : Forall2 (den_edge call rhoB) (d_edges Dp) (map (ere (shg n0 g)) (x_e X)) /\ Forall (eall (dom n0 n0 (nn d))) (x_e X).
+    Proof.
+      destruct HX as (_ & He & _). destruct (dok_stmts d Hd) as (Hle & _). unfold Dp, dren. cbn [d_edges]. clear -He Hle Hcall Hg Hrho Hd HX.
+      induction He as [|st e sts es Hste _ IH]; cbn [map]; [split; constructor|]. inversion Hle as [|? ? Hst Hrest]; subst.
+      destruct (tr_edge call okfn Hcall (dom n0 n0 (nn d)) (shg n0 g) (x_r X) rhoB 0 k (length (d_thunks d)) (shg_mono n0 g (nn d) Hg) place_seg st e Hste Hst) as [A1 A2].
+      destruct (IH Hrest) as [B1 B2]. split; constructor; assumption.
+    Qed.
+    Lemma place_attrs : Forall2 (den_astmt call rhoB) (d_attrs Dp) (map (map (are (shg n0 g))) (x_a X)) /\ Forall (Forall (aall (dom n0 n0 (nn d)))) (x_a X).
+    Proof.
+      destruct HX as (_ & _ & Ha & _). destruct (dok_stmts d Hd) as (_ & Hla & _). unfold Dp, dren. cbn [d_attrs]. clear -Ha Hla Hcall Hg Hrho Hd HX.
+      induction Ha as [|st e sts es Hste _ IH]; cbn [map]; [split; constructor|]. inversion Hla as [|? ? Hst Hrest]; subst.
+      destruct (tr_astmt call okfn Hcall (dom n0 n0 (nn d)) (shg n0 g) (x_r X) rhoB 0 k (length (d_thunks d)) (shg_mono n0 g (nn d) Hg) place_seg st e Hste Hst) as [A1 A2].
+      destruct (IH Hrest) as [B1 B2]. split; constructor; assumption.
+    Qed.
+    Lemma place_prints : Forall (print_ok call rhoB) (d_prints Dp).
+    Proof.
+      destruct HX as (_ & _ & _ & Hp). destruct (dok_stmts d Hd) as (_ & _ & Hlp). unfold Dp, dren. cbn [d_prints]. clear -Hp Hlp Hcall Hg Hrho Hd HX.
+      induction Hp as [|st sts Hst0 _ IH]; cbn [map]; [constructor|]. inversion Hlp as [|? ? Hst Hrest]; subst. constructor; [|apply IH, Hrest].
+      apply (tr_print call okfn Hcall (dom n0 n0 (nn d)) (shg n0 g) (x_r X) rhoB 0 k (length (d_thunks d)) (shg_mono n0 g (nn d) Hg) place_seg st Hst0 Hst).
+    Qed.
+    Lemma place_oseg : oseg_ok n0 (oseg_of d X).
+    Proof.
+      unfold oseg_ok, oseg_of, o_n. cbn [o_nodes o_e o_a]. split; [apply place_edges|]. destruct place_attrs as [_ H]. clear -H.
+      induction H as [|l ls Hl _ IH]; cbn [concat]; [constructor|]. apply Forall_app. split; assumption.
+    Qed.
+  End Place.
+End Blocks3.
